@@ -60,6 +60,7 @@ type Contract struct {
 	// or a stated reason why the recursion ends (an assumption, listed in the evidence)
 	Decreases    *Clause
 	TerminatesBy string
+	TotalOrder   string // reason why the custom comparison this function sorts with is total on the sorted elements (assumed; C02)
 }
 
 // SetSpec: ghost map update performed by the contract at the call: sets $name(key) := value
@@ -110,7 +111,7 @@ type Axiom struct {
 var clauseKeywords = map[string]bool{
 	"func": true, "ext": true, "spec": true, "abstract": true, "axiom": true, "prop": true,
 	"requires": true, "ensures": true, "assigns": true, "loop": true, "call": true, "pure": true,
-	"may_panic": true, "nosafety": true, "astvalid": true, "trusted": true, "bounded": true, "fresh": true, "emits": true, "note": true, "sets": true, "ghost": true, "readonly": true, "trusted_frame": true, "guarded": true, "dyncalls_pure": true, "abstracts": true, "dyncalls_frame": true, "decreases": true, "terminates_by": true,
+	"may_panic": true, "nosafety": true, "astvalid": true, "trusted": true, "bounded": true, "fresh": true, "emits": true, "note": true, "sets": true, "ghost": true, "readonly": true, "trusted_frame": true, "guarded": true, "dyncalls_pure": true, "abstracts": true, "dyncalls_frame": true, "decreases": true, "terminates_by": true, "total_order": true,
 }
 
 var labelRe = regexp.MustCompile(`^@([A-Za-z0-9_\-./]+)\s+`)
@@ -380,6 +381,9 @@ func (e *Engine) readContractFile(path, pkgKey string) error {
 					return fmt.Errorf("%s: %v", where, err)
 				}
 				cur.Decreases = &Clause{Label: "measure", Src: rest, E: x, Where: where}
+			case "total_order":
+				cur.TotalOrder = rest
+				cur.Notes = append(cur.Notes, "the custom sort comparison is assumed total: "+rest)
 			case "terminates_by":
 				cur.TerminatesBy = rest
 				cur.Notes = append(cur.Notes, "termination of the recursion is assumed, not proved: "+rest)
